@@ -158,12 +158,37 @@ func gen(t *rapid.T) Case {
 					ks = append(ks, k)
 				}
 				sort.Strings(ks)
+				var own []string // the names the pattern itself uses, when it has two or more
+				for _, k := range ks {
+					if strings.Contains(o.acc+s.Text, "{"+k+"}") || strings.Contains(o.acc+s.Text, "{"+k+":") {
+						own = append(own, k)
+					}
+				}
+				if len(own) >= 2 {
+					ks = own
+				}
 				two := rapid.Permutation(ks).Draw(t, "tokenKeys")
 				s.Params[two[0]] = "{" + two[1] + "}"
 			}
 			c.Steps = append(c.Steps, s)
 		default:
 			c.Steps = append(c.Steps, Step{Kind: "use", MWs: rapid.SliceOfN(rapid.IntRange(0, 5), 1, 2).Draw(t, "useMws")})
+		}
+	}
+	if rapid.IntRange(0, 5).Draw(t, "plainResource") == 0 {
+		// a Resource over a pattern of plain parameters only, and URLs built through it whose values are tokens of
+		// the other parameter: each parameter is substituted once, whatever order the map is walked in
+		c.Steps = append(c.Steps, Step{Kind: "mk", Obj: 0, Res: true, Text: rapid.SampledFrom([]string{"/tpl/{x}/{id}", "/t/{x}-{id}/{y}", "tpl/{id}{x}"}).Draw(t, "plainText")})
+		ri := len(objs)
+		objs = append(objs, gobj{acc: c.Steps[len(c.Steps)-1].Text, res: true})
+		if rapid.Bool().Draw(t, "plainLive") {
+			c.Steps = append(c.Steps, Step{Kind: "handle", Obj: ri, Variant: "get"})
+		}
+		for i, n := 0, rapid.IntRange(1, 3).Draw(t, "plainURLs"); i < n; i++ {
+			ps := map[string]string{"x": "7", "id": "8", "y": "9"}
+			two := rapid.Permutation([]string{"x", "id", "y"}).Draw(t, "plainKeys")
+			ps[two[0]] = "{" + two[1] + "}"
+			c.Steps = append(c.Steps, Step{Kind: "url", Obj: ri, Strict: rapid.IntRange(0, 3).Draw(t, "plainStrict") == 0, Params: ps})
 		}
 	}
 	var parsed []*pat.Pattern
